@@ -6,11 +6,11 @@ from lib import framework as fw
 from props import xargs_common as xc
 from props import known_common as kc
 
-RULE = ("(option order over -I R / --replace[=R] / -i / -n k / -L k, initial arguments with 0..3 occurrences of R, input lines with blanks "
+RULE = ("(option sequences, repetitions included, over -I R / --replace[=R] / -i / -n k / -L k, initial arguments with 0..3 occurrences of R, input lines with blanks "
         "and R itself, empty lines, empty input) cases; non-trivial = distinct case with a replace option and at least one input line")
 ASSUMPTIONS = [
     "the substitution is leftmost non-overlapping replacement on bytes (replace_all in src/xargs/mod.rs, modelled by XReplace.replace_all and compared on every case, lines that are not UTF-8 included)",
-    "clap reports option positions through indices_of; only the relative order of the last occurrences is used",
+    "clap reports every occurrence of -n/-L/-I/-i with its position (ArgAction::Append, indices_of); batch_mode folds them in that order",
     "lines are free of quotes, backslashes and leading blanks (the property's own restriction)",
 ]
 RS = [b"{}", b"{}", b"_", b"%%", b"ab", "é".encode(), b"{", b"-x"]
@@ -19,42 +19,39 @@ WORDS = [b"a", b"b", b"foo", b"x-y", b"{}", b"_", b"ab", b"%%", "é".encode(), b
 
 def gen_case(rng):
     R = rng.choice(RS)
-    optkinds = []
     r_form = rng.choice(["I", "I", "I", "long=", "long", "i"])
     if r_form in ("long", "i"):
         R = b"{}"
-    optkinds.append("R")
+    kinds = ["R"]
     if rng.random() < 0.45:
-        optkinds.append("n")
+        kinds.append("n")
     if rng.random() < 0.35:
-        optkinds.append("L")
+        kinds.append("L")
     if rng.random() < 0.1:
-        optkinds.remove("R")
-        if not optkinds:
-            optkinds.append("n")
-    # (a repeated -I/--replace is a clap usage error in this implementation; the property does not speak about it)
-    rng.shuffle(optkinds)
-    n = rng.choice([1, 1, 2, 3])
-    L = rng.choice([1, 2])
-    opts, pos, i = [], {}, 0
-    occ = [(k, False) for k in optkinds]
-    if rng.random() < 0.2:
-        # the same option once more, earlier, with another value: the last occurrence is the one that counts
-        k = rng.choice(optkinds)
-        occ.insert(rng.randint(0, occ.index((k, False))), (k, True))
-    for k, earlier in occ:
-        if k == "R":
-            if earlier:
-                o = ["-I", rng.choice([x for x in RS if x != R]).decode()]
+        kinds.remove("R")
+        if not kinds:
+            kinds.append("n")
+    rng.shuffle(kinds)
+    # further occurrences of any of the three, anywhere: they are applied in the order given
+    for _ in range(rng.choice([0, 0, 0, 1, 1, 2, 3])):
+        kinds.insert(rng.randint(0, len(kinds)), rng.choice(["R", "n", "n", "L"]))
+    last_r = max([k for k, x in enumerate(kinds) if x == "R"], default=None)
+    opts, seq = [], []
+    for k, kind in enumerate(kinds):
+        if kind == "R":
+            if k != last_r:
+                opts += ["-I", rng.choice([x for x in RS if x != R]).decode()]
             else:
-                o = {"I": ["-I", R.decode()], "long=": ["--replace=" + R.decode()], "long": ["--replace"], "i": ["-i"]}[r_form]
-        elif k == "n":
-            o = ["-n", str(n + 1 if earlier else n)]
+                opts += {"I": ["-I", R.decode()], "long=": ["--replace=" + R.decode()], "long": ["--replace"], "i": ["-i"]}[r_form]
+            seq.append("I")
+        elif kind == "n":
+            v = rng.choice([1, 1, 1, 2, 3])
+            opts += rng.choice([["-n", str(v)], ["-n%d" % v], ["--max-args=%d" % v]])
+            seq.append("n%d" % v)
         else:
-            o = ["-L", str(L + 1 if earlier else L)]
-        opts += o
-        pos[k] = i
-        i += 1
+            v = rng.choice([1, 2])
+            opts += rng.choice([["-L", str(v)], ["-L%d" % v], ["--max-lines", str(v)]])
+            seq.append("L%d" % v)
     if rng.random() < 0.3:
         opts.append("-r")
     nlines = rng.choice([0, 0, 1, 2, 3, 5])
@@ -66,7 +63,7 @@ def gen_case(rng):
             ws = [rng.choice(WORDS) if rng.random() < 0.8 else R for _ in range(rng.randint(1, 4))]
             # blanks at the end of a line belong to the line ("the entire line"); kept away from -L, where a trailing blank
             # continues the logical line (C04's subject)
-            if "L" not in optkinds and rng.random() < 0.3:
+            if "L" not in kinds and rng.random() < 0.3:
                 ws[-1] = ws[-1] + rng.choice([b" ", b"\t", b"  ", b" \t"])
             lines.append(ws)
     final_nl = rng.random() < 0.8
@@ -74,8 +71,7 @@ def gen_case(rng):
     for _ in range(rng.randint(0, 4)):
         parts = [rng.choice([b"", b"x", b"-o", b"pre", R, R, b"/"]) for _ in range(rng.randint(1, 4))]
         init.append(b"".join(parts))
-    return dict(R=R, opts=opts, pos=pos, n=n if "n" in optkinds else None, L=L if "L" in optkinds else None,
-                repl="R" in optkinds, r="-r" in opts, lines=lines, final_nl=final_nl, cmd=[b"cmd"] + init)
+    return dict(R=R, opts=opts, seq=seq, r="-r" in opts, lines=lines, final_nl=final_nl, cmd=[b"cmd"] + init)
 
 
 def input_of(c):
@@ -100,8 +96,7 @@ def tokens(c, repl):
 
 def evaluate(ctx, cases):
     f = lambda v: "-" if v is None else str(v)
-    norm_lines = ["xnorm %s %s %d %s %s %s" % (f(c["n"]), f(c["L"]), int(c["repl"]), f(c["pos"].get("n")), f(c["pos"].get("L")), f(c["pos"].get("R")))
-                  for c in cases]
+    norm_lines = ["xnorm %s" % (",".join(c["seq"]) or "~") for c in cases]
     norms = fw.run_lines(fw.FUVM, norm_lines)
     mlines, toks_all, eff = [], [], []
     for c, nm in zip(cases, norms):
@@ -146,9 +141,9 @@ def evaluate(ctx, cases):
     for c, i, exp, e in zip(cases, impl, final, eff):
         got = xc.decode_impl(i)
         nl = sum(1 for ws in c["lines"] if ws)
-        ctx.count((c["opts"], c["cmd"], c["lines"], c["final_nl"]), c["repl"] and nl >= 1,
+        ctx.count((c["opts"], c["cmd"], c["lines"], c["final_nl"]), e[2] and nl >= 1,
                   ["mode=%s" % ("replace" if e[2] else "n" if e[0] else "L" if e[1] else "plain"), "lines=%s" % (nl if nl < 3 else "3+"),
-                   "options=%d" % len(c["pos"])])
+                   "options=%s" % (len(c["seq"]) if len(c["seq"]) < 4 else "4+")])
         if got != exp:
             bad.append((c, got, exp))
     return bad
@@ -173,7 +168,7 @@ def report(ctx, bad):
                        "implementation": {"exit": got[0], "invocations": [[fw.hexs(a) for a in i] for i in got[1]]},
                        "model_and_spec": {"exit": exp[0], "invocations": [[fw.hexs(a) for a in i] for i in exp[1]]},
                        "explain": "C20 theorems fix the mode, one run per line, the substitution and the empty-input rule for the model; the implementation differs",
-                       "case": {"R": fw.hexs(c["R"]), "pos": c["pos"], "n": c["n"], "L": c["L"], "repl": c["repl"], "r": c["r"], "final_nl": c["final_nl"],
+                       "case": {"R": fw.hexs(c["R"]), "seq": c["seq"], "r": c["r"], "final_nl": c["final_nl"],
                                 "lines": [[fw.hexs(w) for w in ws] for ws in c["lines"]]},
                        "total_disagreements": len(bad)})
 
@@ -182,10 +177,10 @@ def run(ctx):
     rng = ctx.rng
     cases = [gen_case(rng) for _ in range(30000 if ctx.thorough else 2500)]
     # the empty-input cases of every option form, always
-    for form in (["-I", "{}"], ["--replace"], ["-i"], ["-I", "_", "-n", "1"], ["-n", "2", "-I", "{}"], ["-I", "{}", "-r"]):
-        cases.append(dict(R=b"_" if "_" in form else b"{}", opts=form, pos={"R": form.index(form[0]) if form[0] != "-n" else 1, **({"n": 0 if form[0] == "-n" else 1} if "-n" in form else {})},
-                          n=int(form[form.index("-n") + 1]) if "-n" in form else None, L=None, repl=True, r="-r" in form,
-                          lines=[], final_nl=False, cmd=[b"cmd", b"x{}y", b"_"]))
+    for form, seq in (((["-I", "{}"]), ["I"]), (["--replace"], ["I"]), (["-i"], ["I"]), (["-I", "_", "-n", "1"], ["I", "n1"]), (["-n", "2", "-I", "{}"], ["n2", "I"]),
+                      (["-I", "{}", "-r"], ["I"]), (["-L", "1", "-I", "{}", "-n", "1"], ["L1", "I", "n1"]), (["-I", "{}", "-n", "2", "-n", "1"], ["I", "n2", "n1"])):
+        for lines in ([], [[b"a", b"b"], [b"c"]]):
+            cases.append(dict(R=b"_" if "_" in form else b"{}", opts=form, seq=seq, r="-r" in form, lines=lines, final_nl=bool(lines), cmd=[b"cmd", b"x{}y", b"_"]))
     bad = evaluate(ctx, cases)
     no_command(ctx)
     import tempfile, shutil, os
@@ -218,7 +213,7 @@ def no_command(ctx):
 def replay(ctx, rep):
     if rep.get("kind") == "correspondence":
         k = rep["case"]
-        c = dict(R=fw.unhex(k["R"]), opts=rep["options"], pos=k["pos"], n=k["n"], L=k["L"], repl=k["repl"], r=k["r"],
+        c = dict(R=fw.unhex(k["R"]), opts=rep["options"], seq=k["seq"], r=k["r"],
                  final_nl=k["final_nl"], lines=[[fw.unhex(w) for w in ws] for ws in k["lines"]], cmd=[fw.unhex(x) for x in rep["command"]])
         report(ctx, evaluate(ctx, [c]))
     else:
